@@ -1,4 +1,5 @@
 import Dawn.Model.Loader
+import Dawn.Model.LoaderReload
 import Dawn.Extracted.Loader
 import Dawn.Ties.LoaderExpected
 /-!
@@ -29,6 +30,11 @@ theorem done_shape_ok : Extracted.Loader.doneShape = Loader.doneShape .fixed := 
 /-- `load`: when the module's environment cannot be set up the error is returned through `m.done(nil, err)`, so waiters
 are woken and receive it (D24: it used to be a plain `return nil, err`) -/
 theorem env_error_done_ok : Extracted.Loader.envErrorPath = Loader.envErrorPath .fixed := by decide
+
+/-- `Reload` (directly, through `load`, or through a helper they call before the goroutines start) re-creates the module
+registry together with the flag and target tables and the index-only marker: every load starts from an empty registry,
+which is what lets the model treat a reload as a fresh run (`C06_reload_is_fresh_load`) -/
+theorem reload_resets_ok : Extracted.Loader.reloadResets = Loader.reloadResets := by decide
 
 /-- everything else about the synchronisation skeletons: unchanged since the model was written -/
 theorem getLoading_skeleton_ok : Extracted.Loader.getLoadingSkeleton = Expected.Loader.getLoadingSkeleton := rfl
